@@ -133,6 +133,7 @@ struct Driver {
     int mb_target = -1; std::function<void()> mb_fn; bool mb_done = false; bool mb_quit = false;
     std::atomic<int> mb_ready{0};
     std::vector<std::unique_ptr<struct VJob>> jobs;
+    bool typed_fresh[4] = {true, true, true, true};
     struct JobAct { uint32_t idx; bool getmut; Entity e; int pal; };
     std::vector<JobAct> job_acts;   // what the callback of the next runjob does while it processes entity number idx
 
@@ -275,6 +276,25 @@ static std::string shared_str(const SharedComponentsInfo& info) {
     return s.empty() ? "-" : s;
 }
 
+static std::string entity_shared_str(EntityManager& em, Entity e, const SharedComponentsInfo& info) {
+    std::string s;
+    for (size_t i = 0; i < info.ids_.size(); ++i) {
+        if (i) s += ",";
+        int sp = -1;
+        for (int k = 0; k < kNumShared; ++k) if (g_drv->sregistered[k] && g_drv->sid[k] == info.ids_[i]) sp = k;
+        const void* ptr = i < info.data_.size() ? info.data_[i].get() : nullptr;
+        if (sp >= 0) {
+#define X_GETE(T) static_cast<const void*>(em.getSharedComponent<T>(e))
+            ptr = SHARED_DISPATCH(sp, X_GETE);
+        }
+        int64_t v = 0;
+        if (ptr) v = static_cast<const S0*>(ptr)->v;
+        s += std::to_string(info.ids_[i].toInt()) + ":" + inst_name(ptr) + ":" + std::to_string(v);
+    }
+    for (size_t i = info.ids_.size(); i < info.data_.size(); ++i) s += ",?:" + inst_name(info.data_[i].get());
+    return s.empty() ? "-" : s;
+}
+
 static void dump(std::ostream& out) {
     Driver& d = *g_drv;
     auto& em = d.em();
@@ -303,7 +323,8 @@ static void dump(std::ostream& out) {
             }
         }
         if (first) out << "-";
-        out << " s=" << shared_str(arch.sharedComponentInfo()) << "\n";
+        // the shared values as the per-entity getter getSharedComponent<T>(e) reports them (the A lines print the archetype's own table)
+        out << " s=" << entity_shared_str(em, h, arch.sharedComponentInfo()) << "\n";
     }
     // A: archetypes
     for (size_t ai = 0; ai < em.archetypes_.size(); ++ai) {
@@ -481,6 +502,23 @@ struct VJob : NonTemplateJob {
     uint32_t forced = 0;
     TasksCount taskCount(World& w, uint32_t n) const noexcept override { return forced ? TasksCount::make(forced) : NonTemplateJob::taskCount(w, n); }
 };
+// ---- typed jobs (PerEntityJob<T>: the generated per-entity invocation with its 4x unrolled loop) ----
+struct TypedOut { std::vector<std::pair<uint32_t, std::string>> visits; std::mutex m; uint32_t forced = 0; };
+static TypedOut g_typed;
+static std::string tval(const void* p) { return p ? std::to_string(read_value(p)) : std::string("null"); }
+static void trec(const JobInvocationIndex& ii, Entity e, std::initializer_list<std::string> vals) {
+    std::ostringstream s;
+    s << "t" << ii.task_index.toInt() << ":n" << ii.entity_index.toInt() << ":" << hname(e);
+    for (const auto& v : vals) s << "/" << v;
+    std::lock_guard<std::mutex> lock{g_typed.m}; g_typed.visits.push_back({ii.entity_index.toInt(), s.str()});
+}
+#define TYPED_TASKS(Self) TasksCount taskCount(World& w, uint32_t n) const noexcept override { return g_typed.forced ? TasksCount::make(g_typed.forced) : PerEntityJob<Self>::taskCount(w, n); }
+struct TJ0 : PerEntityJob<TJ0> { TYPED_TASKS(TJ0) void operator()(Entity e, P0& a, JobInvocationIndex ii) { trec(ii, e, {tval(&a)}); } };
+struct TJ1 : PerEntityJob<TJ1> { TYPED_TASKS(TJ1) void operator()(Entity e, const P0& a, const P1* b, JobInvocationIndex ii) { trec(ii, e, {tval(&a), tval(b)}); } };
+struct TJ2 : PerEntityJob<TJ2> { TYPED_TASKS(TJ2) void operator()(Entity e, N2& a, const A4& b, JobInvocationIndex ii) { trec(ii, e, {tval(&a), tval(&b)}); } };
+struct TJ3 : PerEntityJob<TJ3> { TYPED_TASKS(TJ3) void operator()(Entity e, const N2* a, P1& b, JobInvocationIndex ii) { trec(ii, e, {tval(a), tval(&b)}); } };
+static const std::vector<std::vector<int>> kTypedPals = {{0}, {0, 1}, {2, 4}, {2, 1}};
+
 struct JobSpec { std::vector<std::pair<int, int>> reqs; /* pal, flags: 1 const, 2 optional */ std::vector<int> check; };
 
 static std::string run_script(const std::vector<std::string>& lines, std::ostream& out) {
@@ -665,6 +703,19 @@ static std::string run_script(const std::vector<std::string>& lines, std::ostrea
             std::sort(arrays.begin(), arrays.end());
             R << "last=" << job.last_update_version_.toInt();
             for (auto& v : arrays) R << " " << v.second;
+        }
+        else if (op == "runtyped") { // runtyped <k 0..3> <mode 0 current thread, 1 parallel> [forced task count]
+            size_t k; int mode; uint32_t tasks = 0; in >> k >> mode; in >> tasks;
+            for (int p : kTypedPals[k]) do_register(p, 0);
+            static thread_local std::unique_ptr<BaseJob> tj[4];
+            if (d.typed_fresh[k]) { d.typed_fresh[k] = false;
+                switch (k) { case 0: tj[0] = std::make_unique<TJ0>(); break; case 1: tj[1] = std::make_unique<TJ1>(); break;
+                             case 2: tj[2] = std::make_unique<TJ2>(); break; default: tj[3] = std::make_unique<TJ3>(); break; } }
+            g_typed.visits.clear(); g_typed.forced = tasks;
+            tj[k]->run(*d.world, mode == 1 ? JobRunMode::kParallel : JobRunMode::kCurrentThread);
+            std::sort(g_typed.visits.begin(), g_typed.visits.end());
+            R << "last=" << tj[k]->last_update_version_.toInt();
+            for (auto& v : g_typed.visits) R << " " << v.second;
         }
         else if (op == "teardown") { disarm(); d.jobs.clear(); collect_ranges(g_snapshot); g_use_snapshot = true; d.world.reset(); g_use_snapshot = false; out << "R\n";
             { std::lock_guard<std::mutex> lock{g_log_mutex}; out << "E"; for (auto& e : g_events) out << " " << render(e); out << "\n"; g_events.clear(); }
